@@ -283,3 +283,25 @@ PROPS['C13'] = dict(
     bounds='login replies <= 400 bytes; Linux command templates (the harness builds with -DLINUX)', trusted_base=TB_SIM,
     assumptions=AS_SIM + ['only the Linux branch of tun_setip/tun_setmtu is compiled (BSD/Windows command lines are not exercised)'],
 )
+
+PROPS['C10'] = dict(
+    bin='c10', sources=['props/c10.cc'] + SIMSRC2, unit_objs=UNIT, images=IMGS + ['gsrv', 'gcli'], engine='rc',
+    enum_parts=8, exhaustive_claim=True,
+    quick=dict(workers=8, cases=6000, budget=40, min_nontrivial=300, enum_arg=1),
+    thorough=dict(workers=16, cases=200000, budget=1200, min_nontrivial=20000, enum_arg=2),
+    rule='three kinds of case: (a) 60%: the server answer writer (write_dns, glue) with a generated (record type, downstream codec, query-name length 8/53/253, '
+         'payload 1..4096 incl. multiples of 252 +-3) -> strict RFC 1035 reference parser accepts the message; id, question name, type, class echoed; every '
+         'answer owner resolves through compression to the question name. (b) 30%: real iodined (plain or wildcard domain, -b on/off) answering 3..40 valid '
+         'queries from a logged-in scripted session and others: fragment probes of 2..2047 bytes (every answer size class incl. TXT string and MX/SRV '
+         'record-count boundaries), echo requests with arbitrary label bytes (no dot, no NUL), codec tests, NS / A ns. / A www. / AAAA / ANY / type 0 / '
+         '65535 / CNAME queries for the domain and sub-names, names of up to 253 characters with labels of arbitrary bytes, names outside the domain, '
+         'EDNS0 on/off, IPv4/IPv6. (c) 10%: real iodine client + real iodined tunnel sessions as in C01/C02. (b) and (c) are judged by the wire monitor '
+         'on every datagram either program passes to sendto(): well-formed, answers match an unanswered query on (source, id, name, type), class IN, '
+         'owners resolve to the question, NS -> ns.<domain> (+ glue A owned by it), A ns./www. -> one 4-byte A record (www -> 127.0.0.1); client queries: '
+         'QR=0, RD=1, one question, plain OPT record at most, name within -M and under the domain. non-trivial iff multi-string TXT / multi-record / long '
+         'name / auxiliary answer (a, b) or > 20 client queries (c)',
+    exhaustive_text='write_dns: 7 record types x 5 codec letters x 3 query-name lengths x every payload length 1..4096 (thorough) or 1..300 + windows at multiples of 252 + 1/7 sample (quick)',
+    engine_text='rapidcheck over choice tapes + length sweeps; glue pair, simnet (real iodined, real iodine), strict reference parser ref/refdns.cc',
+    bounds='payload <= 4096, names <= 253 characters', trusted_base=TB_SIM + ['glue/glue_server.c (signature of write_dns)'],
+    assumptions=AS_SIM + ['queries whose labels contain "." or NUL are outside the property (iodine represents names as dotted C strings)'],
+)
